@@ -40,11 +40,10 @@ structure Dev where
   uintWrap : Bool
   deriving DecidableEq, Repr
 
-/-- the code as it is now: four deviations are repaired in the repository — lastIndex (c0c8224),
-tailSkip (2f372fe), genRoot (36b721b), floatRound (23c2317); the uint64 wrap is a known finding
-(proposed fix: notes/proposed_fixes/C19_uint64_wrap.md). `Props/C19.lean` proves that the deviation
-set read off the regenerated source facts (`Gen/AltDiff.lean`) is this one. -/
-def Dev.current : Dev := ⟨false, false, false, false, true⟩
+/-- the code as it is now: every deviation is repaired in the repository — lastIndex (c0c8224),
+tailSkip (2f372fe), genRoot (36b721b), floatRound (23c2317), uintWrap (d149f2d). `Props/C19.lean`
+proves that the deviation set read off the regenerated source facts (`Gen/AltDiff.lean`) is this one. -/
+def Dev.current : Dev := ⟨false, false, false, false, false⟩
 /-- the pinned code (d4b55cf), before the repairs -/
 def Dev.pinned : Dev := ⟨true, true, true, true, true⟩
 def Dev.fixed : Dev := ⟨false, false, false, false, false⟩
